@@ -133,6 +133,7 @@ func c10Register() {
 		zygo.GoStructRegistry.RegisterUserdef(&zygo.RegisteredType{GenDefMap: true, Factory: func(env *zygo.Zlisp, h *zygo.SexpHash) (interface{}, error) {
 			return &C10Dup{}, nil
 		}}, true, "c10dup")
+		c10RegisterNode()
 	})
 }
 
@@ -400,16 +401,20 @@ func init() {
 			"int into a float64 field is an accepted conversion (value preserved)",
 			"time.Time members come back from Go as nil (pinned by the repository's own Test018), so a time field is only required to arrive in Go (non-zero) and is expected to be nil after the trip back",
 		},
-		NCases:   func(c *core.Ctx) int { return thorN(c, 2000, 50000) },
-		Chunk:    100,
+		NCases: func(c *core.Ctx) int { return thorN(c, 2000, 50000) + c10CycCases },
+		Chunk:  100,
+		StallS: 15, CaseTimeoutS: 90, HangIsViolation: true, // a conversion that runs away (cyclic records) is a violation, not a slow case
 		Sanitize: true,
-		MustSee:  []string{"record_to_go", "receiver_conversions", "argument_conversions", "echo_round_trips", "shared_records", "negative_cases", "repeated_field_names", "convert_change_convert", "late_registered_types"},
+		MustSee:  []string{"record_to_go", "receiver_conversions", "argument_conversions", "echo_round_trips", "shared_records", "negative_cases", "repeated_field_names", "convert_change_convert", "late_registered_types", "cyclic_records", "range_and_kind_probes"},
 		Run:      c10Run,
 	})
 }
 
 func c10Run(c *core.Ctx, i int) *core.Result {
 	c10Register()
+	if base := thorN(c, 2000, 50000); i >= base {
+		return c10CycCase(c, i-base)
+	}
 	r := core.NewRng(c.Seed, "C10", i, 0)
 	res := &core.Result{}
 	if i%5 == 4 {
